@@ -33,7 +33,12 @@ CFG = {
         "in which all ten digits must occur (probability of a false alarm below 1e-35). Trusted: Coq kernel + vm_compute; the hand "
         "model; the harness (recording sender, hash interning, time stamps taken just before each call); math/rand, crypto/rand, "
         "satori uuid + md5 (hash treated as an opaque fresh value). Concurrency of one sender instance is not part of C19 (the type "
-        "has no lock; the property speaks of sequences)."
+        "has no lock; the property speaks of sequences). Long histories (classes long-attempts, long-sends) are emitted in run-length "
+        "form - (n, item) = n consecutive identical calls with identical observations, time stamp of the first, and for consecutive "
+        "mock-mode sends that all went out the last returned hash - and evaluated by the one-pass monitor holds_fast (proved equal to "
+        "holds); the correspondence thereby also exercises counts beyond 2^8 and 2^16 (65536 / 70000 / 131075 further attempts against "
+        "one sent code, 65536 refused sends, a window of >= 65536 sends filled and overrun); the attempt bound itself is a theorem for "
+        "every number of attempts (the model's counters are unbounded integers)."
     ),
     "rule": (
         "a history case = one fresh service instance + one generated sequence of SendSMSCode / VerifySMSCode calls (6-30 calls, 1-5 "
@@ -55,5 +60,5 @@ CFG = {
         "one goroutine per sender instance (the property is about sequences; sender has no lock)",
     ],
     "lint": [],
-    "chunk": 200,
+    "chunk": 100,
 }
